@@ -454,6 +454,15 @@ func TestC02(t *testing.T) {
 	rapid.Check(t, func(t *rapid.T) {
 		c := &c02Case{Job: genJob(t, rapid.SampledFrom([]string{"node", "job with space", "k8s/pods"}).Draw(t, "jobName"))}
 		c.Groups = genGroups(t, "grp", 3, 4, true)
+		// digit-leading final label names: a labelmap over pod labels plus a pod label that starts with a digit
+		if rapid.IntRange(0, 3).Draw(t, "digitLabel") == 0 {
+			c.Job.Rules = append(c.Job.Rules, relRule{Action: "labelmap", Regex: "__meta_kubernetes_pod_label_(.+)"})
+			g := &c.Groups[rapid.IntRange(0, len(c.Groups)-1).Draw(t, "digitGroup")]
+			if g.Labels == nil {
+				g.Labels = map[string]string{}
+			}
+			g.Labels["__meta_kubernetes_pod_label_1st"] = rapid.SampledFrom(valuePool).Draw(t, "digitValue")
+		}
 		// duplicates across groups
 		if rapid.IntRange(0, 3).Draw(t, "dupGroup") == 0 {
 			g := c.Groups[0]
